@@ -254,7 +254,51 @@ func abs64(x int64) int64 {
 	return x
 }
 
+// genC26SleepNew: "repeated sleep cycles" x "not-yet-registered topics under a wildcard": the broker
+// publishes on a new name while the client sleeps, and the client sleeps longer than the gateway's
+// whole retry budget (the gateway's REGISTER must wait for it, not give up).
+func genC26SleepNew(g *Gen) *Plan {
+	cfg := g.BaseCfg()
+	cfg.Sched = g.Sched("gateway/handler1.go", "gateway/broker_publish")
+	cfg.SN.FIFO = true
+	clRetry, clCount := cfg.RetryDelayMs, cfg.RetryCount
+	cfg.RetryDelayMs, cfg.RetryCount = g.Range(150, 600), uint(g.Range(1, 2)) // the gateway's
+	p := &Plan{Family: "C26-sleep-newtopic", Cfg: cfg}
+	cp := ClientPlan{Name: "cl1", ClientID: "app1", Clean: true, ConnectTimeoutMs: 5000, RetryDelayMs: clRetry, RetryCount: clCount, StartMs: g.Range(1, 300)}
+	cp.KeepAliveMs = g.Range(20, 60) * 1000
+	filter := []string{"t/#", "n/+", "#"}[g.Intn(3)]
+	ops := []ClientOp{{Op: "dial"}, {Op: "connect"}, {GapMs: g.Range(50, 400), Op: "subscribe", Topic: filter, QoS: uint8(g.Intn(3))}}
+	t := cp.StartMs + 400 + 100 // (+ round trips)
+	ncyc := int(g.Range(1, 3))
+	k := 0
+	for c := 0; c < ncyc; c++ {
+		gap := g.Range(200, 900)
+		d := g.Range(3, 7) * 1000
+		t += gap
+		ops = append(ops, ClientOp{GapMs: gap, Op: "sleep", DurMs: d})
+		for j := 0; j < int(g.Range(1, 3)); j++ {
+			k++
+			topic := map[string][]string{"t/#": {"t/new1", "t/new2", "t/a"}, "n/+": {"n/7", "n/8"}, "#": {"t/new1", "n/7", "zz/q"}}[filter][g.Intn(2)]
+			p.Broker.Injects = append(p.Broker.Injects, BrokerInject{AtMs: t + g.Range(150, 900), Topic: topic, Payload: serialPayload("sn", k, int(g.Range(0, 10))), QoS: uint8(g.Intn(3))})
+		}
+		t += d + 100
+		if g.Bool(0.6) || c == ncyc-1 {
+			ops = append(ops, ClientOp{GapMs: 50, Op: "connect"})
+			t += 100
+		}
+	}
+	t += 6000
+	ops = append(ops, ClientOp{GapMs: 6000, Op: "disconnect"})
+	cp.Ops = ops
+	p.Clients = []ClientPlan{cp}
+	p.Cfg.HorizonMs = t + 9000
+	return p
+}
+
 func genC26(g *Gen, idx int) *Plan {
+	if idx%8 == 7 {
+		return genC26SleepNew(g)
+	}
 	cfg := g.BaseCfg()
 	cfg.Sched = g.Sched("client/", "gateway/handler1.go", "gateway/broker_publish")
 	// "a lossless link": nothing is lost and nothing overtakes. (When datagrams overtake each other a
@@ -665,7 +709,7 @@ func genC16(g *Gen, idx int) *Plan {
 
 func init() {
 	Register(&Check{ID: "C26", Level: "exploration",
-		Rule:   "1-2 real client libraries against the real gateway and the broker model over lossless links: random bounded API programs (connect, register, subscribe string/wildcard/short/predefined, publish QoS 0-3, unsubscribe, ping, sleep -> second sleep -> connect, disconnect; optional will; keep-alive on/off) with broker-side publishes routed by subscription incl. bursts on not-yet-registered topics; every call must return nil within its bound, have its effect at the broker, and every broker message matching a live subscription must reach the handler; non-trivial = at least one API call",
+		Rule:   "1-2 real client libraries against the real gateway and the broker model over lossless links: random bounded API programs (connect, register, subscribe string/wildcard/short/predefined, publish QoS 0-3, unsubscribe, ping, sleep -> second sleep -> connect, disconnect; optional will; keep-alive on/off) with broker-side publishes routed by subscription incl. bursts on not-yet-registered topics; every eighth plan: wildcard subscription, sleeps of 3-7 s with publishes on new names during them and a gateway retry budget shorter than the sleep; every call must return nil within its bound, have its effect at the broker, and every broker message matching a live subscription must reach the handler; non-trivial = at least one API call",
 		Gen:    genC26, Oracle: oracleC26, Quick: 600, Thorough: 40000})
 	Register(&Check{ID: "C32", Level: "exploration",
 		Rule:   "real clients and the real gateway share a random predefined-topic configuration with client-specific/'*' overlaps in ids (names unique per map, see N7); PublishPredefined/SubscribePredefined/short-topic Publish/Subscribe plus broker publishes on every predefined and short name; the broker must see the name the client's configuration gives to the id, handlers must get the broker's name; non-trivial = at least one predefined/short publish, subscribe or delivery judged",
